@@ -43,12 +43,14 @@ CLAIMED = {
              "handed out; target_decoding_exact (path and (key, value-or-none) argument list = reference decoding for every NUL-free "
              "target) and the round trip target_render_decode over every admissible percent-encoding choice "
              "(every_target_has_rendering); request-line round trip at every level (whitespace blocks at levels < 0) from method + "
-             "raw target to method, decoded path, arguments, version; header-section and cookie round trips for canonical "
-             "renderings; lookup_exact (first element of the kind with caselessly equal name of equal length - never a prefix). By "
-             "correspondence only: whitespace inside the URI / bare CR at levels < 0, non-canonical field renderings (OWS, folding, "
-             "bare LF, CR/NUL replacement), lenient cookie renderings. Tie: bounded-exhaustive white-box differential (all strings "
-             "<= 5/6 bytes x 12 templates x 7 levels x 2 feeding modes, 24.7M cases quick), white-box look-up op, and the real "
-             "daemon with rendered requests (875k look-up probes per quick run) against a semantic oracle and the model.",
+             "raw target to method, decoded path, arguments, version; header-section round trip for canonical AND non-canonical "
+             "renderings at every level (fields_roundtrip_nc_partial: optional whitespace, whitespace before the colon, obs-folds, "
+             "NUL / bare CR replacement, bare LF, empty section), cookie round trip for canonical renderings; lookup_exact (first "
+             "element of the kind with caselessly equal name of equal length - never a prefix). By correspondence only: whitespace "
+             "inside the URI / bare CR at levels < 0, field lines that are not renderings of a well-formed field at the lenient "
+             "levels, lenient cookie renderings. Tie: bounded-exhaustive white-box differential (all strings <= 5/6 bytes x 12 "
+             "templates x 7 levels x 2 feeding modes, 24.7M cases quick), white-box look-up op, and the real daemon with rendered "
+             "requests (875k look-up probes per quick run) against a semantic oracle and the model.",
         note="Assumes the request fits the arena (413/414/431 one class), the default unescape callback, the configured build. "
              "Trusted: Lean kernel, standard axioms, harness/h_reqparse.c, h_conn02.c, the Python semantic oracle.",
         design="DESIGN.md §3 C02/C03", technique="Lean 4 proof (scanner split-independence lemma, invariants, round-trip lemmas) + model/code correspondence + semantic oracle"),
@@ -61,11 +63,13 @@ CLAIMED = {
              "zeros per level); split independence of the connection automaton for every segmentation; pipelined valid streams "
              "framed exactly as a strict reference framer does, for every handler take pattern (partial_takes_no_desync, "
              "pipeline_no_desync_takes); safety invariant 'no re-parse after discard / error / close' over all transition sequences. "
-             "The head parser is a parameter constrained by the incremental-scanner laws (the strict splitter is proved lawful; for "
-             "the real parser the laws are C02's split-independence theorems, not formally instantiated). Tie: regenerated "
-             "thresholds, daemon + white-box correspondence (pipelines x defect kinds x splits x 7 levels x handler timings x take "
-             "patterns; 39k non-canonical field lists and 8k white-box bodytake cases per quick run), independent Python reference "
-             "framer.",
+             "The head parser is a parameter constrained by the incremental-scanner laws; both the strict splitter and C02's real "
+             "parser model (rlScanner followed by hsScanner, every level) are proved lawful instances (real_parser_lawful), giving "
+             "pipeline_no_desync / frames_agree_reference for the composition 'C02 parser + C03 framing' on the normalised head "
+             "(partial: process_request_target and cookies outside); announced_close_no_further_request ties 'reply announces close' "
+             "to the wire via C04's close_announced_iff. Tie: regenerated thresholds, daemon + white-box correspondence (pipelines x "
+             "defect kinds x splits x 7 levels x handler timings x take patterns; 39k non-canonical field lists and 8k white-box "
+             "bodytake cases per quick run), independent Python reference framer.",
         note="No-space paths oracle-only; non-strict head renderings are C02's. Trusted: Lean kernel, standard axioms, "
              "harness/h_conn03.c, h_chunk.c.",
         design="DESIGN.md §3 C02/C03", technique="Lean 4 proof + regenerated thresholds + model/code correspondence + reference framer oracle"),
@@ -120,14 +124,15 @@ CLAIMED = {
         design="DESIGN.md §3 C11", technique="Lean 4 proof (simulation / conservation laws) + behavioural guard probes + real-daemon correspondence + log oracle"),
     "C12": dict(
         engine="dauth",
-        text="Lean 4 theorems over a model of digest_auth_check_all_inner and its six public entry points, composed with C13 (nonce table), "
-             "C14 (header parser) and C16 (hashes): the result class is a function of the meaning of the credential (`expectedClass`, "
-             "clauses in the code's order); OK <=> RFC 7616/2617/2069-valid within the 65535-byte limits, for every request and header "
-             "bytes; rendering independence; every single-field mutation rejected; replay rejected on every reachable nonce table; no "
-             "write beyond hash1_bin/tmp1 for every input (false before fix F24); no client-triggered MHD_PANIC (false before F25). Tie: "
-             "regenerated constants; real daemon whose handler calls check3 / check_digest3 / the four legacy wrappers under a virtual "
-             "clock with nonces issued by the real code; random credentials x 3 algorithms x qop x username notation x bind options x "
-             "~20 labelled mutations x nc window edges; independent RFC oracle with hashlib.",
+        text="Lean 4 theorems (42) over a model of digest_auth_check_all_inner and its six public entry points, composed with C13 "
+             "(nonce table), C14 (header parser) and C16 (hashes): the result class is a function of the meaning of the credential "
+             "(`expectedClass`, clauses in the code's order); OK <=> RFC 7616/2617/2069-valid within the 65535-byte limits, for "
+             "every request and header bytes; rendering independence; every single-field mutation rejected; replay rejected on every "
+             "reachable nonce table; no write beyond hash1_bin/tmp1 for every input (false before fix F24); no client-triggered "
+             "MHD_PANIC (false before F25). Tie: regenerated constants; real daemon whose handler calls check3 / check_digest3 / the "
+             "four legacy wrappers under a virtual clock with nonces issued by the real code; random credentials x 3 algorithms x "
+             "qop x username notation x bind options x ~20 labelled mutations x nc window edges; independent RFC oracle with "
+             "hashlib.",
         note="Allocation failure modelled all-or-nothing per check (alloc_failure_* theorems, --wrap=malloc runs); pool exhaustion "
              "in MHD_get_rq_dauth_params_ not modelled; the request's GET argument list is a model input (recomputed by driver and "
              "oracle, printed by the harness); SHA-512/256 composition carries C16's size_t hypothesis; no unforgeability claim.",
@@ -158,13 +163,15 @@ CLAIMED = {
              "escapes, extension parameters, empty elements); parse_agrees_reference: every byte string an RFC 7235/7616 "
              "recursive-descent reference (written from the ABNF, returns the parse tree) accepts is parsed to the same values; "
              "algorithm/qop/userhash invariant under quoting; single-byte corruptions inside values are rejected or change only that "
-             "parameter (corruption_local_quoted/_token, corruption_rejected_*; the re-bracketing class is a recorded finding / "
-             "witness); info-API structures depend only on the meaning, lie inside the one allocated block with exact sizes "
-             "(info_block_layout), user-name type classification total and exact (presence, not emptiness, decides); first matching "
-             "Authorization header wins; Basic round trip, canonical-base64-only, exact token68 extraction; no access beyond "
-             "str[str_len]. Tie: regenerated if-chains/tables/enums + 2.0e5 (quick) case correspondence, bounded-exhaustive + "
-             "random, header lists, layout with malloc_usable_size under ASan, real daemon with several Authorization headers, RFC "
-             "7616/7617 reference oracle.",
+             "parameter (corruption_local_quoted/_token, corruption_rejected_*; the re-bracketing class is the recorded finding "
+             "F36); digest_accepts_only_lenient_grammar (accepted => sentence of an explicitly defined lenient grammar with the "
+             "reported values: strict <= accepted <= lenient); per-request credential cache (early_query_not_cached, "
+             "late_query_after_early, next_request_fresh); info-API structures depend only on the meaning, lie inside the one "
+             "allocated block with exact sizes (info_block_layout), user-name type classification total and exact (presence, not "
+             "emptiness, decides); first matching Authorization header wins; Basic round trip, canonical-base64-only, exact token68 "
+             "extraction; no access beyond str[str_len]. Tie: regenerated if-chains/tables/enums + 2.0e5 (quick) case "
+             "correspondence, bounded-exhaustive + random, header lists, layout with malloc_usable_size under ASan, real daemon with "
+             "several Authorization headers, RFC 7616/7617 reference oracle.",
         note="Precondition: one readable byte behind the header value (the parser reads str[str_len]; it is the in-buffer NUL). Info-API "
              "theorem under Elem.infoWf (escaped nc <= 16 raw bytes, username* unescaped with complete pct-encoding).",
         design="DESIGN.md §3 C14", technique="Lean 4 proof + regenerated constants + model/code correspondence + RFC reference oracle"),
@@ -278,32 +285,36 @@ CLAIMED = {
              "shapes x phase boundaries x 8 actions x 28 handler behaviours (19.6k cases quick) + interim/upgrade scripts + "
              "interim-with-pipelined-bytes scripts + random histories on the real daemon (select + epoll): exact callback sequence "
              "and white-box state / client_aware at every settled point vs the model; independent automaton oracle.",
-        note="Parsers abstracted to tokens; external select/epoll modes; chunked-upload total by oracle only; thread-per-connection "
-             "shutdown and TLS upgrade forwarding not modelled.",
+        note="Parsers abstracted to tokens; external select/epoll modes; chunked-upload total proved at process_request_body level "
+             "only; suspended-resuming thread-per-connection exit and TLS upgrade forwarding not modelled.",
         design="DESIGN.md §3 C05", technique="Lean 4 refinement proof + predictive correspondence + independent automaton oracle"),
     "C06": dict(
         engine="loop",
         text="Lean 4 proof (61 theorems): round post-conditions for the select / poll / epoll loops, invariant over histories, "
-             "no_lost_wakeup(_epoll), progress (the per-connection step is a parameter constrained by laws that are monitored on "
-             "every logged call); thread-per-connection loop (thread_main_handle_connection): tpc_invariant_reachable, "
-             "tpc_no_lost_wakeup (at every blocking call: suspended => waits on the ITC for <= 250 ms; active => waits on the socket "
-             "with zero timeout when work is pending; infinite timeout => nothing could proceed), tpc_resume_is_served, "
-             "tpc_progress, kernel-checked witnesses that the property fails without the F29 re-check and without the F30 early "
-             "marking, two regenerated source facts (the file does not build on a tree lacking either fix); "
-             "connsm_wait_class_in_table (C05's eventLoopInfo agrees with the regenerated state -> wait-class table). Tie: "
-             "trace-driven per-round / per-thread-iteration prediction against the real daemon in external select and epoll modes "
-             "and, in lock-step through a gated poll(), the internal poll thread and thread-per-connection (all threads park in the "
-             "interposed poll(); exhaustive schedules of <= 4 events on 2 connections); quiescence oracle.",
-        note="Per-connection step is a parameter under explicit law records (only the wait-class table is proved for C05's ConnSM); "
-             "thread-per-connection with select() is model + theorems only; one thread iteration is atomic with respect to the "
-             "daemon thread (finer interleavings: C18).",
+             "no_lost_wakeup(_epoll), progress over a per-connection step constrained by laws; the safety laws are PROVED for C05's "
+             "concrete state machine (connsm_satisfies_laws with the unbounded handleIdle; no_lost_wakeup_connsm, "
+             "tpc_no_lost_wakeup_connsm, no_unexamined_input_when_quiescent), the progress laws and one epoll-only law stay "
+             "assumptions monitored on every logged call; pipelined input (reply_sent_leaves_no_unexamined_input); every back-end's "
+             "daemon cycle processes resumes (regenerated facts, daemon_cycle_processes_resumes); thread-per-connection loop "
+             "(thread_main_handle_connection): tpc_invariant_reachable, tpc_no_lost_wakeup (at every blocking call: suspended => "
+             "waits on the ITC for <= 250 ms; active => waits on the socket with zero timeout when work is pending; infinite timeout "
+             "=> nothing could proceed), tpc_resume_is_served, tpc_progress, kernel-checked witnesses that the property fails "
+             "without the F29 re-check and without the F30 early marking, two regenerated source facts (the file does not build on a "
+             "tree lacking either fix); connsm_wait_class_in_table (C05's eventLoopInfo agrees with the regenerated state -> "
+             "wait-class table). Tie: trace-driven per-round / per-thread-iteration prediction against the real daemon in external "
+             "select and epoll modes and, in lock-step through a gated poll(), the internal poll thread and thread-per-connection "
+             "with poll() and with select() (all threads park in the interposed poll()/select(); exhaustive schedules of <= 4 events "
+             "on 2 connections); quiescence oracle.",
+        note="For the concrete step ProgLaws and LawsEp.idle_quiet stay monitored assumptions; the thread pool is not run in "
+             "lock-step; one thread iteration is atomic with respect to the daemon thread (finer interleavings: C18).",
         design="DESIGN.md §3 C06", technique="Lean 4 proof + regenerated flags + trace-driven model correspondence + log oracle"),
     "C07": dict(
         engine="send",
         text="Lean 4 proof (33 theorems) over a model of the write path (header / body / chunk / footer phases, combined header+body "
-             "send, iovec with partial elements, sendfile with offset and fallback, pipe, callback readers incl. END_WITH_ERROR) and "
-             "the upload path: delivered_prefix and session_prefix (all bytes the socket accepted over a keep-alive session are a "
-             "prefix of the concatenated reply streams, no duplication or gap, for every fault script), done_delivers_all, "
+             "send, iovec with partial elements, sendfile with offset and fallback, pipe, callback readers incl. END_WITH_ERROR and "
+             "premature END_OF_STREAM on known-size bodies, the interim 100-Continue message as a send phase of its own) and the "
+             "upload path: delivered_prefix and session_prefix (all bytes the socket accepted over a keep-alive session are a prefix "
+             "of the concatenated reply streams, no duplication or gap, for every fault script), done_delivers_all, "
              "transient_never_closes, transient_fair_delivers_all (any infinite schedule of transient results under an explicit "
              "fairness hypothesis), closed_never_sends, hard_error_closes, sendfile_error_policy, alloc_failure_*, upload_prefix / "
              "upload_complete / upload_transient_unchanged / upload_hard_error_closes, release_exactly_once and "
@@ -324,10 +335,11 @@ CLAIMED = {
              "parser reads back: for every buffer size, boundary, item list with arbitrary binary values incl. boundary look-alikes, "
              "and EVERY chunk list whose concatenation is the encoding: all calls accept and the delivered (key, filename, content "
              "type, transfer encoding, value pieces with contiguous offsets) equal the fields, fields after a container under their "
-             "own metadata), multipart_split_independent. Not proved: a syntactic sufficient condition for the header-parse clause "
-             "of ItemOk; a preamble before the first delimiter. Tie: all 2/3-way splits of small bodies, byte-by-byte, random, "
-             "malformed, look-alike x border splits and line-fill cases at buffer sizes 256/257/300, header-quirk parts, nested "
-             "bodies against the real MHD_post_process.",
+             "own metadata), multipart_split_independent. multipart_roundtrip_syntactic (purely syntactic side conditions for "
+             "top-level fields), multipart_preamble_roundtrip (arbitrary preamble). An epilogue after the closing delimiter is "
+             "answered with MHD_NO after all fields were delivered (witness, observation). Tie: all 2/3-way splits of small bodies, "
+             "byte-by-byte, random, malformed, look-alike x border splits and line-fill cases at buffer sizes 256/257/300, "
+             "header-quirk parts, nested bodies against the real MHD_post_process.",
         note="Multipart round trip and multipart loop termination not proved (stated in Props/C15.lean).",
         design="DESIGN.md §3 C15", technique="Lean 4 proof + translator for constants + bounded-exhaustive/random correspondence"),
     "C08": dict(
